@@ -5,6 +5,7 @@ import (
 	"go/constant"
 	"go/token"
 	"go/types"
+	"strings"
 
 	"golang.org/x/tools/go/ssa"
 )
@@ -495,10 +496,51 @@ func ruleNoHybridAfterSystem(w *World, r *RuleResult) {
 			key = fmt.Sprintf("%s #%d", key, n+1)
 		}
 		recv := basePtr(s.Common().Args[0])
-		defines := func(x ssa.Instruction) bool { return w.definesExponent(f, x, recv) }
+		forms := w.formConsts()
+		defines := func(x ssa.Instruction) bool {
+			if w.definesExponent(f, x, recv) {
+				return true
+			}
+			// the value is turned into a NaN: nothing finite is left to carry a wrong exponent (that the NaN
+			// is then replaced by the plain one is C14.R11's business)
+			if st, ok := x.(*ssa.Store); ok {
+				if fa, isFA := st.Addr.(*ssa.FieldAddr); isFA && basePtr(fa.X) == recv && w.exprOf(f, st.Addr).Name == "Form" {
+					if k, isK := st.Val.(*ssa.Const); isK && (ci(k) == forms["NaN"] || ci(k) == forms["NaNSignaling"]) {
+						return true
+					}
+				}
+			}
+			// a helper that is handed the receiver and the call's result and overwrites the receiver with a
+			// whole value on each of its System* branches
+			if c, ok := x.(*ssa.Call); ok {
+				if g := callee(c); g != nil && w.overwritesOnSystem(g) && len(c.Common().Args) > 0 && basePtr(c.Common().Args[0]) == recv {
+					for _, a := range c.Common().Args[1:] {
+						if typeIs(a.Type(), apdPath, "Condition") {
+							ok2 := false
+							w.exprOf(f, a).walk(func(e *Expr) bool {
+								if e.V == ssa.Value(s) {
+									ok2 = true
+								}
+								return true
+							})
+							if ok2 {
+								return true
+							}
+						}
+					}
+				}
+			}
+			return false
+		}
 		// (a) defined before the call on every path: a defining instruction dominates the call (in the
 		// function itself or, for an unexported helper working on its parameter, in every caller)
 		before := w.exponentDefinedBefore(f, s, recv, 0)
+		// … which only helps while the value is still that whole value: once the coefficient has been
+		// replaced (a rounded coefficient stored into a copy of the operand), a failure leaves the new
+		// coefficient with the unrounded exponent
+		if before && w.coeffRewrittenBefore(f, s, recv) {
+			before = false
+		}
 		if before {
 			r.ok(key, w.instrPos(s), "the receiver's Exponent is defined by this invocation before the call (whole-value write or Exponent store dominating it): a failure leaves a value that depends on the operands only", true)
 			continue
@@ -656,4 +698,134 @@ func (w *World) exponentDefinedBefore(f *ssa.Function, at ssa.Instruction, recv 
 		}
 	}
 	return true
+}
+
+// overwritesOnSystem: g is a package function with a *Decimal receiver/first parameter d and a Condition
+// parameter r such that both r.SystemOverflow() and r.SystemUnderflow() are tested and every path from the
+// true edge of each test to a return defines d's Exponent (a store to the field or a whole-value write).
+func (w *World) overwritesOnSystem(g *ssa.Function) bool {
+	if g == nil || !w.inPkg(g) || len(g.Params) < 2 || !isDecimalPtr(g.Params[0].Type()) || len(g.Blocks) == 0 {
+		return false
+	}
+	var cp *ssa.Parameter
+	for _, p := range g.Params {
+		if typeIs(p.Type(), apdPath, "Condition") && !isPointer(p.Type()) {
+			cp = p
+		}
+	}
+	if cp == nil {
+		return false
+	}
+	d := ssa.Value(g.Params[0])
+	seen := map[string]bool{}
+	for _, b := range g.Blocks {
+		iff, ok := b.Instrs[len(b.Instrs)-1].(*ssa.If)
+		if !ok {
+			continue
+		}
+		c, ok := iff.Cond.(*ssa.Call)
+		if !ok || len(c.Common().Args) == 0 {
+			continue
+		}
+		n := w.calleeName(c)
+		if n != "(Condition).SystemOverflow" && n != "(Condition).SystemUnderflow" {
+			continue
+		}
+		derives := false
+		w.exprOf(g, c.Common().Args[0]).walk(func(e *Expr) bool {
+			if e.V == ssa.Value(cp) {
+				derives = true
+			}
+			return true
+		})
+		if !derives {
+			continue
+		}
+		// every path from the true successor to a return passes a whole-value write of d
+		okAll := true
+		visited := map[*ssa.BasicBlock]bool{}
+		var visit func(bb *ssa.BasicBlock)
+		visit = func(bb *ssa.BasicBlock) {
+			if visited[bb] || !okAll {
+				return
+			}
+			visited[bb] = true
+			for _, x := range bb.Instrs {
+				if w.definesExponent(g, x, d) {
+					return
+				}
+				if _, isRet := x.(*ssa.Return); isRet {
+					okAll = false
+					return
+				}
+			}
+			for _, s := range bb.Succs {
+				visit(s)
+			}
+		}
+		visit(b.Succs[0])
+		if okAll {
+			seen[n] = true
+		}
+	}
+	return seen["(Condition).SystemOverflow"] && seen["(Condition).SystemUnderflow"]
+}
+
+// coeffRewrittenBefore: some path reaches the setExponent call `at` with the receiver's coefficient written
+// separately (a store or a call writing recv.Coeff that is not a whole-value write) after the last
+// whole-value write of the receiver.
+func (w *World) coeffRewrittenBefore(f *ssa.Function, at *ssa.Call, recv ssa.Value) bool {
+	rp, isParam := recv.(*ssa.Parameter)
+	if !isParam {
+		return false
+	}
+	ri := -1
+	for i, q := range f.Params {
+		if q == rp {
+			ri = i
+		}
+	}
+	p := w.newProv(f, nil)
+	writesCoeff := func(in ssa.Instruction) bool {
+		if c, ok := in.(*ssa.Call); ok {
+			if g := callee(c); g != nil && wholeValueWriters[w.shortName(g)] && len(c.Common().Args) > 0 && basePtr(c.Common().Args[0]) == recv {
+				return false
+			}
+			if c == at {
+				return false
+			}
+		}
+		for _, e := range w.instrEffects(p, in, nil) {
+			if e.Write && e.Loc.Root.Kind == RParam && e.Loc.Root.Param == ri && (e.Loc.Field == "Coeff" || strings.HasPrefix(e.Loc.Field, "Coeff.")) {
+				return true
+			}
+		}
+		return false
+	}
+	// backwards from the call until a whole-value write
+	found := false
+	seen := map[*ssa.BasicBlock]bool{}
+	var back func(b *ssa.BasicBlock, from int)
+	back = func(b *ssa.BasicBlock, from int) {
+		for i := from; i >= 0 && !found; i-- {
+			in := b.Instrs[i]
+			if w.definesExponent(f, in, recv) {
+				if _, isStore := in.(*ssa.Store); !isStore {
+					return // whole-value write: earlier history is irrelevant
+				}
+			}
+			if writesCoeff(in) {
+				found = true
+				return
+			}
+		}
+		for _, pb := range b.Preds {
+			if !seen[pb] {
+				seen[pb] = true
+				back(pb, len(pb.Instrs)-1)
+			}
+		}
+	}
+	back(at.Block(), instrIndex(at)-1)
+	return found
 }
